@@ -16,6 +16,7 @@ import (
 const (
 	hDenom  = "htltbnb"
 	hOther  = "stake"
+	hDenom2 = "htltinc"
 	hHeight = int64(50)
 )
 
@@ -55,7 +56,12 @@ func newHEnvLimits(limitInvariant bool) *hEnv {
 		e.asset.SupplyLimit.Limit, e.asset.SupplyLimit.TimeBasedLimit = verifIntAny("anyLimit"), verifIntAny("anyTimeLimit")
 		e.asset.FixedFee, e.asset.MinSwapAmount, e.asset.MaxSwapAmount = verifIntAny("anyFixedFee"), verifIntAny("anyMinSwap"), verifIntAny("anyMaxSwap")
 	}
-	p := types.Params{AssetParams: []types.AssetParam{e.asset}}
+	// a second supported asset with a deputy and a supply record of its own: nothing that happens to the first
+	// asset's contracts may touch it
+	second := types.AssetParam{Denom: hDenom2, SupplyLimit: types.SupplyLimit{Limit: sdkmath.NewInt(900), TimeLimited: true, TimePeriod: time.Hour, TimeBasedLimit: sdkmath.NewInt(500)},
+		Active: true, DeputyAddress: vAddr(6).String(), FixedFee: sdkmath.NewInt(3), MinSwapAmount: sdkmath.NewInt(5), MaxSwapAmount: sdkmath.NewInt(700),
+		MinBlockLock: types.MinTimeLock, MaxBlockLock: types.MaxTimeLock}
+	p := types.Params{AssetParams: []types.AssetParam{e.asset, second}}
 	var vErr error
 	vPanicked, _ := verifCatch(func() { vErr = p.Validate() })
 	verifAssume(!vPanicked && vErr == nil)
@@ -70,9 +76,23 @@ func newHEnvLimits(limitInvariant bool) *hEnv {
 	}
 	c := func(a sdkmath.Int) sdk.Coin { return sdk.Coin{Denom: hDenom, Amount: a} }
 	e.k.SetAssetSupply(e.ctx, types.NewAssetSupply(c(e.incoming), c(e.outgoing), c(e.current), c(e.tlCurrent), 0), hDenom)
+	e.k.SetAssetSupply(e.ctx, hSecondSupply(), hDenom2)
 	// bank: the asset's circulating supply is at least `current`; the escrow holds at least the open outgoing amount
 	e.bank.fund(e.other, hDenom, e.current)
 	return e
+}
+
+func hSecondSupply() types.AssetSupply {
+	c := func(a int64) sdk.Coin { return sdk.NewInt64Coin(hDenom2, a) }
+	return types.NewAssetSupply(c(11), c(22), c(333), c(44), 77*time.Second)
+}
+
+// secondAssetIntact: the supply record of the asset that is not involved is exactly as it was
+func (e *hEnv) secondAssetIntact() bool {
+	s, found := e.k.GetAssetSupply(e.ctx, hDenom2)
+	w := hSecondSupply()
+	return found && s.IncomingSupply.IsEqual(w.IncomingSupply) && s.OutgoingSupply.IsEqual(w.OutgoingSupply) && s.CurrentSupply.IsEqual(w.CurrentSupply) &&
+		s.TimeLimitedCurrentSupply.IsEqual(w.TimeLimitedCurrentSupply) && s.TimeElapsed == w.TimeElapsed
 }
 
 func (e *hEnv) supply() types.AssetSupply { s, _ := e.k.GetAssetSupply(e.ctx, hDenom); return s }
@@ -167,6 +187,7 @@ func VerifC03_Claim() {
 	s1 := e.supply()
 	after, _ := e.k.GetHTLC(e.ctx, id)
 	queued := e.store().Has(types.GetHTLCExpiredQueueKey(h.ExpirationHeight, id))
+	verifAssert(e.secondAssetIntact(), "a claim never touches the supply record of another asset")
 	if err != nil {
 		verifCover("refused")
 		verifAssert(esc1.Cmp(esc0) == 0 && to1.Cmp(to0) == 0 && sup1.Cmp(sup0) == 0, "a refused claim moves nothing")
@@ -245,6 +266,7 @@ func VerifC04_Create() {
 	esc1, w1, sup1 := e.bank.get(vModuleAddr(types.ModuleName), denom).BigInt(), e.bank.get(sender, denom).BigInt(), e.bank.supplyOf(denom).BigInt()
 	s1 := e.supply()
 	a := big.NewInt(amtV)
+	verifAssert(e.secondAssetIntact(), "a creation never touches the supply record of another asset")
 	if err != nil {
 		verifCover("refused")
 		verifAssert(esc1.Cmp(esc0) == 0 && w1.Cmp(w0) == 0 && sup1.Cmp(sup0) == 0, "a refused create moves nothing")
@@ -317,6 +339,7 @@ func VerifC03_Refund() {
 	s1 := e.supply()
 	after, _ := e.k.GetHTLC(e.ctx, id)
 	verifAssert(after.State == types.Refunded, "refunded contract is marked refunded")
+	verifAssert(e.secondAssetIntact(), "a refund never touches the supply record of another asset")
 	a := amt.BigInt()
 	switch {
 	case !sh.transfer, sh.dir == types.Outgoing:
